@@ -108,10 +108,10 @@ def run(ctx):
     variants = [fail_variants(p, rnd) for p in progs]
     sid = 0
     scen = []
-    for _ in range(400 if thorough else 48):
+    for _ in range(400 if thorough else 96):
         scen.append(seq_scenario(rnd, sid, progs, variants))
         sid += 1
-    for _ in range(240 if thorough else 40):
+    for _ in range(240 if thorough else 80):
         scen.append(thread_scenario(rnd, sid, progs, variants, rnd.choice([2, 2, 3])))
         sid += 1
     per = max(1, (len(scen) + 15) // 16)
@@ -126,7 +126,9 @@ def run(ctx):
         extra.append(('hashseed=' + hs, ctx.run_driver(DRIVER, dict(scenarios=[allseq]), mode='nrt', hashseed=hs)))
     extra.append(('rt', ctx.run_driver(DRIVER, dict(scenarios=[allseq]), mode='rt', hashseed='7')))
     gcn = 3000 if thorough else 800
-    gco = ctx.run_driver(DRIVER, dict(scenarios=[dict(id=0, kind='gc', n=gcn, prog=progs[0])]), mode='nrt')
+    gcprog = sp.Prog('gcp', [sp.Ctl('a', 1, 1)], [sp.Gen('SinOsc', 2, [sp.Pm(1), sp.C(0)]),
+                                                   sp.Gen('Out', 2, [sp.C(0), sp.R(1)], 0)])
+    gco = ctx.run_driver(DRIVER, dict(scenarios=[dict(id=0, kind='gc', n=gcn, prog=gcprog)]), mode='nrt')
 
     traces = []
     det = {}
@@ -194,7 +196,7 @@ def run(ctx):
         if t['kind'] in ('seq', 'threads') and 'steps' in sc or 'threads' in sc:
             rp['scenario'] = sc
         elif t['kind'] == 'gc':
-            rp['scenario'] = dict(id=0, kind='gc', n=sc['n'], prog=progs[0])
+            rp['scenario'] = dict(id=0, kind='gc', n=sc['n'], prog=gcprog)
         else:
             rp['results'] = sc
         ctx.violation('build:%s:%s' % (t['kind'], why), '%s trace: %s at event %d (%s %s %s)'
